@@ -87,7 +87,10 @@ def strategy():
                 # this resolver's cache writes fail after a few lines (ENOSPC); what it leaves behind must not be trusted later
                 ops.append(['new_faulty', True, True, draw(st.integers(0, 4))])
             else:
-                ops.append(['new', draw(st.sampled_from([True, True, False])), draw(st.sampled_from([True, True, False]))])
+                # most sessions use the selection of the case; some use all samples or an empty selection (other configurations
+                # sharing the cache directory: their cache files are kept apart by the selection in the file name)
+                ops.append(['new', draw(st.sampled_from([True, True, False])), draw(st.sampled_from([True, True, False])),
+                            draw(st.sampled_from(['case', 'case', 'case', 'case', 'all', 'empty']))])
             tour = draw(st.lists(st.sampled_from(qcontigs + contigs[:2] * 2), min_size=1, max_size=5))
             if len(tour) >= 2 and draw(st.booleans()):
                 tour.append(tour[0])
@@ -116,9 +119,11 @@ def vcf_text(case):
     return '\n'.join(lines) + '\n'
 
 
-def site_model(case):
+def site_model(case, selection='case'):
     """(contig, pos0) -> dict(kind, bases: base -> samples, carriers: base -> samples (soundness set))"""
-    sel = case['select'] or case['samples']
+    if selection == 'case':
+        selection = case['select']
+    sel = case['samples'] if selection is None else selection        # None = all samples, [] = no sample
     ign = {tuple(x) for x in case['ignore']} if case['ignore'] else None
     model = {}
     for r in case['records']:
@@ -175,13 +180,21 @@ def eval_case(case):
         pysam.tabix_compress(plain, gz, force=True)
         pysam.tabix_index(gz, preset='vcf', force=True)
         ign = {tuple(x) for x in case['ignore']} if case['ignore'] else None
-        kw = dict(select_samples=case['select'], ignore_conversions=ign)
-        model = site_model(case)
-        with contextlib.redirect_stdout(io.StringIO()):
-            try:
-                ref = AlleleResolver(gz, lazyLoad=False, use_cache=False, **kw)
-            except Exception as e:
-                return out.bad('exception:eager-reference:%s' % type(e).__name__, repr(e))
+        sessions = {}
+
+        def session(which):
+            """(kw, model, eager reference) of a selection: 'case', 'all' (None) or 'empty' ([])"""
+            if which not in sessions:
+                sel_ = {'case': case['select'], 'all': None, 'empty': []}[which]
+                kw_ = dict(select_samples=sel_, ignore_conversions=ign)
+                with contextlib.redirect_stdout(io.StringIO()):
+                    ref_ = AlleleResolver(gz, lazyLoad=False, use_cache=False, **kw_)
+                sessions[which] = (kw_, site_model(case, sel_), ref_)
+            return sessions[which]
+        try:
+            kw, model, ref = session('case')
+        except Exception as e:
+            return out.bad('exception:eager-reference:%s' % type(e).__name__, repr(e))
         cur = None
         cur_mode = None
         loaded_contig = None
@@ -229,13 +242,21 @@ def eval_case(case):
         for op in case['ops']:
             if op[0] == 'new_faulty':
                 session_gzip = FailingGzip(op[3])
-                op = ['new', op[1], op[2]]
+                op = ['new', op[1], op[2], 'case']
                 out.label('resolver with failing cache writes')
             elif op[0] == 'new':
                 session_gzip = real_gzip
             at_mod.gzip = session_gzip
             if op[0] == 'new':
                 lazy, cache = op[1], op[2]
+                try:
+                    kw, model, ref = session(op[3] if len(op) > 3 else 'case')
+                except Exception as e:
+                    out.bad('exception:eager-reference:%s' % type(e).__name__, repr(e))
+                    cur = None
+                    continue
+                if len(op) > 3 and op[3] != 'case':
+                    out.label('session with another sample selection')
                 cur_mode = '%s%s' % ('lazy' if lazy else 'eager', '+cache' if cache else '')
                 with contextlib.redirect_stdout(io.StringIO()):
                     try:
